@@ -85,7 +85,7 @@ def proj_key(p):
     if 'f' in p:
         return ('t', p['f'])
     if 'idx' in p:
-        return ('idx',)
+        return ('idx', p['idx'])
     if 'cidx' in p:
         return ('cidx', p['cidx'], p['from_end'])
     if 'sub' in p:
@@ -114,6 +114,8 @@ def proj_name(pk):
         return 'as ' + pk[1]
     if pk[0] == 'idx':
         return '[]'
+    if pk[0] == 'idxv':
+        return '[%s]' % pk[1]
     if pk[0] == 'cidx':
         return '[%d]' % pk[1]
     return '?'
